@@ -408,7 +408,7 @@ func c18Paths(peer string, thorough bool) []string {
 func C18Plan() *vlib.Plan {
 	p := &vlib.Plan{
 		Property: "C18", Level: "exploration", Workers: 1, Quiet: true,
-		Rule:   "E-ENUM in a private mount namespace (fresh tmpfs on /tmp): paths = base in {/tmp, /tmp/, //tmp, /tmp/., /tmp/../tmp, /var/tmp, /tmp/sub, /tmp/link (symlink to a decoy dir), tmp, '', /proc/self/root/tmp, a symlink elsewhere that resolves to /tmp} x leaf in {recognised and near-miss names, '.', '..', traversal, control and non-ASCII bytes, 5000 chars, remote forms, address forms over 12 ip spellings (the peer's own, other v4 / v6 hosts, equivalent long and v4-mapped spellings, a host name, a bracketed form) x 5 ports} (+ every single-character mutation of two accepted paths in thorough) x peer address {v4, v6} x {local, remote} x scripted server {answers 0, answers -1, closes after the path, closes after reading the client's answer (no verdict), trailing bytes}; recursive snapshots of /tmp + scratch CWD + decoy dirs + the directory $TMPDIR points to (set to somewhere other than /tmp) before / when the server holds the client's answer / after. Oracle: independent path validator written from the statement; at most one directory, only for acceptable paths, mode 0700, answer 0 iff created, snapshot restored afterwards, client nil iff server answered 0. Server half (accept only the real owner-only directory, record its owner, record NOTHING for a refused object) against {nothing, dir 0700, dir 0755, dir 0500, dir of another uid, dir with a sub-directory, regular file, symlink to dir / file, fifo}. Non-trivial = every exchange (distinct by construction).",
+		Rule:   "E-ENUM in a private mount namespace (fresh tmpfs on /tmp): paths = base in {/tmp, /tmp/, //tmp, /tmp/., /tmp/../tmp, /var/tmp, /tmp/sub, /tmp/link (symlink to a decoy dir), tmp, '', /proc/self/root/tmp, a symlink elsewhere that resolves to /tmp} x leaf in {recognised and near-miss names, '.', '..', traversal, control and non-ASCII bytes, 5000 chars, remote forms, address forms over 12 ip spellings (the peer's own, other v4 / v6 hosts, equivalent long and v4-mapped spellings, a host name, a bracketed form) x 5 ports} (+ every single-character mutation of two accepted paths in thorough) x peer address {v4, v6} x {local, remote} x scripted server {answers 0, answers -1, closes after the path, closes after reading the client's answer (no verdict), trailing bytes}; recursive snapshots of /tmp + scratch CWD + decoy dirs + the directory $TMPDIR points to (set to somewhere other than /tmp) before / when the server holds the client's answer / after. Oracle: independent path validator written from the statement; at most one directory, only for acceptable paths, mode 0700, answer 0 iff created, snapshot restored afterwards, client nil iff server answered 0. Plus the whole method loop of a client handshake (method lists [FS], [FS,CLAIMTOBE], [CLAIMTOBE,FS], [FS,TOKEN,CLAIMTOBE]) against a scripted server that selects FILESYSTEM in every round and declares each attempt failed: at most one directory per authentication, nothing left behind. Server half (accept only the real owner-only directory, record its owner, record NOTHING for a refused object) against {nothing, dir 0700, dir 0755, dir 0500, dir of another uid, dir with a sub-directory, regular file, symlink to dir / file, fifo}. Non-trivial = every exchange (distinct by construction).",
 		Assume: []string{"runs inside `unshare -m` with a tmpfs on /tmp when available (evidence field namespace); as root"},
 	}
 	p.Gen = func(tier string, yield func(vlib.Case)) {
@@ -434,6 +434,13 @@ func C18Plan() *vlib.Plan {
 				}
 			}
 		}
+		yield(vlib.Case{ID: "client/whole-method-loop/filesystem-selected-in-every-round", Run: func() *vlib.Result {
+			res := &vlib.Result{}
+			for _, ms := range [][]security.AuthMethod{{security.AuthFS}, {security.AuthFS, mCTB}, {mCTB, security.AuthFS}, {security.AuthFS, mTOK, mCTB}} {
+				c18Repeated(res, ms)
+			}
+			return res
+		}})
 		for _, obj := range []string{"nothing", "dir0700", "dir0755", "dir0500", "dir0700-other-uid", "dir-with-subdir", "regular-file", "symlink-to-dir", "symlink-to-file", "fifo"} {
 			for _, remote := range []bool{false, true} {
 				obj, remote := obj, remote
@@ -446,4 +453,57 @@ func C18Plan() *vlib.Plan {
 		}
 	}
 	return p
+}
+
+
+// c18Repeated: the whole method loop of a client handshake against a scripted server that
+// selects FILESYSTEM in EVERY round and declares each attempt failed. Within one
+// authentication the client creates at most one directory (a method that failed is withdrawn,
+// and a server that selects it again is refused), and nothing is left behind.
+func c18Repeated(res *vlib.Result, clientMethods []security.AuthMethod) {
+	c18Mu.Lock()
+	defer c18Mu.Unlock()
+	e := c18Setup()
+	res.Evals++
+	before := takeSnap(e.roots()...)
+	created := map[string]bool{}
+	var answers []int64
+	out := &peerOutcome{}
+	dev := peerDev{AuthAnswer: "YES", Select: "fs-repeat"}
+	dev.FSHook = func(round int, path string, clientResult int64) {
+		answers = append(answers, clientResult)
+		added, _ := snapDiff(before, takeSnap(e.roots()...))
+		for _, a := range added {
+			created[a] = true
+		}
+	}
+	cc := baseCfg(security.SecurityRequired, security.SecurityOptional, clientMethods, []security.CryptoMethod{security.CryptoAES}, false)
+	cc.Command = 5
+	r := hsRun(hsOpts{ClientCfg: cc, ServerScript: scriptedServer(dev, out)})
+	res.Transitions += len(answers)
+	id := fmt.Sprintf("client methods %v, server selects FILESYSTEM in every round (answers %v, client result %s)", clientMethods, answers, errStr(r.C.Err))
+	if len(answers) == 0 {
+		res.Outcome("fs-never-selected")
+		return
+	}
+	res.Nontrivial++
+	if len(created) > 1 {
+		var l []string
+		for c := range created {
+			l = append(l, c)
+		}
+		sort.Strings(l)
+		res.Violate("C18/more-than-one-created/repeated-selection", "%s: %d directories were created in ONE authentication: %v", id, len(created), l)
+	}
+	if r.C.Err == nil {
+		res.Violate("C18/client-ok-though-server-failed", "%s: every FILESYSTEM attempt was declared failed, yet the handshake succeeded", id)
+	}
+	added, removed := snapDiff(before, takeSnap(e.roots()...))
+	if len(added) > 0 || len(removed) > 0 {
+		res.Violate("C18/not-cleaned-up/repeated-selection", "%s: added %v removed %v", id, added, removed)
+		for _, a := range added {
+			_ = os.RemoveAll(strings.Fields(a)[0])
+		}
+	}
+	res.Outcome(fmt.Sprintf("repeated-selection-rounds=%d", len(answers)))
 }
